@@ -1728,10 +1728,26 @@ class Interp:
                 st.mem[(l[0], l[1] + (i,))] = C(ch)
         elif ie['k'] == 'InitListExpr':
             st.mem[(l[0], l[1] + ('$def',))] = C(0)
+            et = self.prog.type(t['el']) if t and t.get('k') == 'array' and t.get('el') else None
+            rec = self.prog.records.get(t.get('rec')) if t and t.get('k') == 'rec' else None
             for i, c in enumerate(ie.get('c', [])):
+                if rec is not None:
+                    if i >= len(rec['fields']):
+                        break
+                    sub = (l[0], l[1] + (rec['fields'][i]['d'][2:],))
+                    st_t = self.prog.type(rec['fields'][i]['t'])
+                else:
+                    sub = (l[0], l[1] + (i,))
+                    st_t = et
+                inner = c
+                while inner.get('k') in ('ImplicitCastExpr', 'ExprWithCleanups') and inner.get('e', {}).get('k') == 'InitListExpr':
+                    inner = inner['e']
+                if inner.get('k') == 'InitListExpr' and st_t and st_t.get('k') in ('array', 'rec'):
+                    self.init_array(st, sub, st_t, inner, fr)      # rows of a two-dimensional table, structs in an array
+                    continue
                 r = self.ev(c, st, fr)
                 if r:
-                    st.mem[(l[0], l[1] + (i,))] = r[0][1]
+                    st.mem[sub] = r[0][1]
         else:
             st.mem[(l[0], l[1] + ('$def',))] = TOP
 
